@@ -17,6 +17,14 @@ Core Lean only.
 namespace LyModel.Diff
 open LyModel LyModel.Tree
 
+/-- Candidate repairs of known findings (`fixes/Fnn.diff`).  All `false` = the pinned tree; the check sets a switch when
+`known_findings.json` lists the finding as `fixed`, so that the model follows the repaired code. -/
+structure Fixes where
+  f50 : Bool := false     -- apply: a user-ordered leaf-list move also applies the default-flag change
+  f56 : Bool := false     -- apply: descendants without an operation below a moved instance are skipped
+  f58 : Bool := false     -- diff: `*diff` is re-computed after an existing node was moved behind its fellow instances
+  deriving Repr, Inhabited
+
 inductive Op where
   | create | delete | replace | none
   deriving Repr, DecidableEq, Inhabited
@@ -85,20 +93,21 @@ def findIdxFrom (p : DNode → Nat → Bool) : List DNode → Nat → Option Nat
   | [], _ => Option.none
   | x :: xs, i => if p x i then some i else findIdxFrom p xs (i + 1)
 
+/-- is sibling `x` (at index `i`) what `lyd_find_sibling_first` / the duplicate-instance cache return for `target`? -/
+def matchPred (S : Schema) (target : DNode) (used : List Nat) (x : DNode) (i : Nat) : Bool :=
+  if S.isKind target.sid .list || S.isKind target.sid .leaflist then
+    x.sid == target.sid && instMatch S target x && !(S.isDupInst target.sid && used.contains i)
+  else x.sid == target.sid
+
 /-- `lyd_diff_find_match` while *diffing* (the sibling list does not change): `used` is the duplicate-instance cache —
 the indices already handed out; a dup-inst target gets the next unused equal instance, any other target the first match.
 Returns the match (after the default filter) and the new cache. -/
 def findMatch (S : Schema) (sibs : List DNode) (target : DNode) (defaults : Bool) (used : List Nat) :
     Option Nat × List Nat :=
-  let isLL := S.isKind target.sid .list || S.isKind target.sid .leaflist
-  let dup := S.isDupInst target.sid
-  let r := findIdxFrom (fun x i =>
-    if isLL then x.sid == target.sid && instMatch S target x && !(dup && used.contains i)
-    else x.sid == target.sid) sibs 0
-  match r with
+  match findIdxFrom (matchPred S target used) sibs 0 with
   | Option.none => (Option.none, used)
   | some i =>
-    let used' := if dup then i :: used else used
+    let used' := if S.isDupInst target.sid then i :: used else used
     if (sibs[i]?.map (·.flags.dflt)).getD false && !defaults then (Option.none, used') else (some i, used')
 
 /-! ## duplication into the diff -/
@@ -426,17 +435,17 @@ def diffSiblings (S : Schema) (defaults : Bool) : (fuel : Nat) → (top : Bool) 
     second.zipIdx.foldl (phase2Step S defaults first second) (resetPhase st1)
 
 /-- `lyd_diff_siblings(first, second, options, &diff)`: all diff siblings, and the index of the one `*diff` points to -/
-def diffFull (S : Schema) (defaults : Bool) (first second : List DNode) : List DNode × Nat :=
+def diffFull (S : Schema) (defaults : Bool) (first second : List DNode) (fx : Fixes := {}) : List DNode × Nat :=
   let st := diffSiblings S defaults (Nat.max (heightL first) (heightL second) + 1) true first second
-  (st.out, st.ptr)
+  (st.out, if fx.f58 then 0 else st.ptr)
 
 /-- the diff tree (what `lyd_print_all` / a walk from the first sibling sees) -/
 def diff (S : Schema) (defaults : Bool) (first second : List DNode) : List DNode :=
   (diffFull S defaults first second).1
 
 /-- the diff as `lyd_diff_apply_all(&data, diff)` walks it: from `*diff` on -/
-def diffFromPtr (S : Schema) (defaults : Bool) (first second : List DNode) : List DNode :=
-  let r := diffFull S defaults first second
+def diffFromPtr (S : Schema) (defaults : Bool) (first second : List DNode) (fx : Fixes := {}) : List DNode :=
+  let r := diffFull S defaults first second fx
   r.1.drop r.2
 
 end LyModel.Diff
